@@ -115,6 +115,31 @@ def run(model, col, tier):
                     if i is not None and i != 0:
                         overwritten[i] = st
     col.floor("R20.1", "located token sites", nsites, 14)
+    # the converse: the leaves every range is built from.  Nodes of these classes are what diagnostics point at (declarations,
+    # parameters) or the leaves UpdateLocations hulls composite ranges from (names, literals): wherever a grammar action builds
+    # one from a single naming token, it locates it (confirmed for all 19 construction sites of the pinned tree)
+    LEAVES = ("Argument", "LiteralExpression", "PrimaryExpression", "VariableDeclaration")
+    nleaf = 0
+    for P in G.productions:
+        stmts, pname = select_stmts(P.func, len(P.syms))
+        built2, located2 = {}, set()
+        for st in stmts:
+            if isinstance(st, ast.Assign) and isinstance(st.value, ast.Call):
+                ci = model.resolve_class_expr(PARSER, st.value.func)
+                if ci is not None and ci.file == ASTF and ci.name in LEAVES:
+                    toks = {i for a in list(st.value.args) + [k.value for k in st.value.keywords] for s_ in ast.walk(a) for i in [p_index(s_, pname)]
+                            if i is not None and 1 <= i <= len(P.syms) and P.syms[i - 1] in G.terminals}
+                    if len(toks) == 1:
+                        built2[unparse(st.targets[0])] = (ci.name, st.value)
+            for c in ast.walk(st):
+                if isinstance(c, ast.Call) and last_attr(c) == "SetLocation" and isinstance(c.func, ast.Attribute):
+                    located2.add(unparse(c.func.value))
+        for tgt, (cname, ctor) in built2.items():
+            nleaf += 1
+            col.check(tgt in located2, "R20.1", f"{PARSER}::{P.func.name}[{P}] locates its {cname}", f"the {cname} built from a token gets that token's range",
+                      f"`{' '.join(unparse(ctor).split())[:60]}` is never given a location in this action: the node keeps the unknown range, so a diagnostic about it shows no / another "
+                      "position and enclosing constructs are hulled without it", PARSER, ctor)
+    col.floor("R20.1", "leaf constructions that must be located", nleaf, 16)
     gl = pc.own_method("__GetLocation")
     which = gl.args.args[2].arg
     pn = gl.args.args[1].arg
